@@ -191,6 +191,7 @@ def execute(h, param, prefix=(), expect=None, jump=False, order="rr"):
         # harness declared it expects library exceptions and catches them itself
         raise sched.CheckerError("harness %s raised:\n%s" % (h.name, herr[0]))
     x = Exec(h, param, s)
+    x.jump = jump
     if h.oracle is not None:
         try:
             h.oracle(x)
